@@ -39,10 +39,13 @@ public:
 
   double get_scattering_factor(Element element, signed char charge) {
     double& sfactor = scattering_factors_[element.ordinal()];
-    if (sfactor == 0.) {
+    if (sfactor == 0. || charge != 0) {
       if (!Table::has(element.elem))
         fail("Missing scattering factor for ", element.name());
-      sfactor = Table::get(element.elem, charge).calculate_sf(stol2_) + addends.get(element);
+      double sf = Table::get(element.elem, charge).calculate_sf(stol2_) + addends.get(element);
+      if (charge != 0)  // the cache is per element: it must not mix ions with neutral atoms
+        return sf;
+      sfactor = sf;
     }
     return sfactor;
   }
